@@ -648,7 +648,8 @@ where
             }
             Msg::Ins(_) => {
                 // The start() listener should never receive an install message, since it is on the CCP side.
-                unreachable!()
+                debug!(addr = %format!("{:#?}", recv_addr), "got install message, ignoring");
+                continue;
             }
             Msg::Other(m) => {
                 debug!(
